@@ -154,82 +154,6 @@ def divisorsStep (res : List Nat) (pe : Nat × Nat) : List Nat :=
 
 def divisors (fs : List (Nat × Nat)) : List Nat := fs.foldl divisorsStep [1]
 
-/-! ### `IntPrimeDom::isprimepower(q, u)` (givintprime.C) -/
-
-/-- GMP's table of primes below 1000 without the leading 2 (`for (i = 1; primes[i] != 0; i++)`) -/
-def smallOddPrimes : List Nat :=
-  [3, 5, 7, 11, 13, 17, 19, 23, 29, 31, 37, 41, 43, 47, 53, 59, 61, 67, 71, 73, 79, 83, 89, 97, 101, 103, 107, 109, 113, 127, 131,
-   137, 139, 149, 151, 157, 163, 167, 173, 179, 181, 191, 193, 197, 199, 211, 223, 227, 229, 233, 239, 241, 251, 257, 263, 269, 271,
-   277, 281, 283, 293, 307, 311, 313, 317, 331, 337, 347, 349, 353, 359, 367, 373, 379, 383, 389, 397, 401, 409, 419, 421, 431, 433,
-   439, 443, 449, 457, 461, 463, 467, 479, 487, 491, 499, 503, 509, 521, 523, 541, 547, 557, 563, 569, 571, 577, 587, 593, 599, 601,
-   607, 613, 617, 619, 631, 641, 643, 647, 653, 659, 661, 673, 677, 683, 691, 701, 709, 719, 727, 733, 739, 743, 751, 757, 761, 769,
-   773, 787, 797, 809, 811, 821, 823, 827, 829, 839, 853, 857, 859, 863, 877, 881, 883, 887, 907, 911, 919, 929, 937, 941, 947, 953,
-   967, 971, 977, 983, 991, 997]
-def SMALLEST_OMITTED_PRIME : Nat := 1009
-
-/-- `for( ; !(((unsigned int)t) & 0x1) ; t>>=1, ++n2)` on `t > 0`: returns `(t, n2)` -/
-def twoLoop : Nat → Nat → Nat → Nat × Nat
-  | 0, t, n2 => (t, n2)
-  | fuel+1, t, n2 => if t % 2 = 1 then (t, n2) else twoLoop fuel (t / 2) (n2 + 1)
-
-/-- `for (n = 2;; ++n) { divmod(q,rem,u2,prime); if (rem != 0) break; swap(q,u2); }` returns `(u2, n)` -/
-def multLoop (p : Nat) : Nat → Nat → Nat → Nat × Nat
-  | 0, u2, n => (u2, n)
-  | fuel+1, u2, n => if u2 % p ≠ 0 then (u2, n) else multLoop p fuel (u2 / p) (n + 1)
-
-/-- floor of the `k`-th root (`mpz_root`), by bisection on `[lo, hi)` -/
-def irootAux (n k : Nat) : Nat → Nat → Nat → Nat
-  | 0, lo, _ => lo
-  | fuel+1, lo, hi =>
-    if hi ≤ lo + 1 then lo else
-    let mid := (lo + hi) / 2
-    if mid ^ k ≤ n then irootAux n k fuel mid hi else irootAux n k fuel lo mid
-def iroot (n k : Nat) : Nat :=
-  if k = 0 then 0 else irootAux n k (Nat.log2 n + 2) 0 (2 ^ (Nat.log2 n / k + 1))
-
-/-- the scan of the small primes; `none` = no listed prime divides `u` -/
-def smallScan (u : Nat) : List Nat → Option (Nat × Nat)
-  | [] => none
-  | p :: ps =>
-    if u % p = 0 then
-      if u % (p * p) ≠ 0 then some (0, 0)
-      else
-        let (u2, n) := multLoop p (u + 1) (u / (p * p)) 2
-        if u2 = 1 then some (n, p) else some (0, 0)
-    else smallScan u ps
-
-/-- `for (nth = 2;; ++nth) { if (!isprime(nth)) continue; exact = root(q,u2,nth); … }`
-    with the repair of fixes/C12_4 (`again q` is the recursive call on an exact root that is not prime) -/
-def rootScan (isp : Int → Bool) (again : Nat → Nat × Nat) (u : Nat) : Nat → Nat → Nat × Nat
-  | 0, _ => (0, 0)
-  | fuel+1, nth =>
-    if !isp (nth : Int) then rootScan isp again u fuel (nth + 1) else
-    let q := iroot u nth
-    if q ^ nth = u then
-      if isp (q : Int) then (nth, q)
-      else if q < 2 then (0, q)
-      else let (k, r) := again q; (k * nth, r)
-    else if q < SMALLEST_OMITTED_PRIME then (0, q)
-    else rootScan isp again u fuel (nth + 1)
-
-/-- `unsigned int isprimepower(Rep& q, const Rep& u)`: returns `(e, q)`; `q` is meaningful only when `e ≠ 0`.
-    First line: guard of fixes/C12_3 (the unchanged code returned 1 for 0 and (3,3) for -27). `depth` bounds the
-    recursion of fixes/C12_4 (each level at least halves the bit length). -/
-def isprimepowerAux (isp : Int → Bool) : Nat → Int → Nat × Nat
-  | 0, _ => (0, 0)
-  | depth+1, ui =>
-    if ui ≤ 0 then (0, 0) else
-    let u := ui.toNat
-    if (u % 18446744073709551616) % 4 = 2 then (0, 0) else
-    let (t, n2) := twoLoop (u + 1) u 0
-    if n2 > 0 then (if t = 1 then (n2 % 4294967296, 2) else (0, 0)) else
-    match smallScan u smallOddPrimes with
-    | some r => r
-    | none => rootScan isp (fun q => isprimepowerAux isp depth (q : Int)) u (Nat.log2 u + 3) 2
-
-def isprimepower (isp : Int → Bool) (u : Int) : Nat × Nat :=
-  isprimepowerAux isp (Nat.log2 u.natAbs + 2) u
-
 /-! ### `Protected::prevprime` (gmp++_int_misc.C): same walk with `mpz_probab_prime_p` directly -/
 
 /-- with the bound of fixes/C12_5 (`p <= 3`; the unchanged code had `p < 3` and returned -3 for 3) -/
